@@ -343,7 +343,7 @@ fn dryoc_mprotect_readonly(data: &[u8]) -> Result<(), std::io::Error> {
     #[cfg(unix)]
     {
         use libc::{PROT_READ, c_void, mprotect as c_mprotect};
-        let ret = unsafe { c_mprotect(data.as_ptr() as *mut c_void, data.len() - 1, PROT_READ) };
+        let ret = unsafe { c_mprotect(data.as_ptr() as *mut c_void, data.len(), PROT_READ) };
         match ret {
             0 => Ok(()),
             _ => Err(std::io::Error::last_os_error()),
@@ -360,7 +360,7 @@ fn dryoc_mprotect_readonly(data: &[u8]) -> Result<(), std::io::Error> {
         let res = unsafe {
             VirtualProtect(
                 data.as_ptr() as LPVOID,
-                data.len() - 1,
+                data.len(),
                 PAGE_READONLY,
                 &mut old,
             )
@@ -383,7 +383,7 @@ fn dryoc_mprotect_readwrite(data: &[u8]) -> Result<(), std::io::Error> {
         let ret = unsafe {
             c_mprotect(
                 data.as_ptr() as *mut c_void,
-                data.len() - 1,
+                data.len(),
                 PROT_READ | PROT_WRITE,
             )
         };
@@ -403,7 +403,7 @@ fn dryoc_mprotect_readwrite(data: &[u8]) -> Result<(), std::io::Error> {
         let res = unsafe {
             VirtualProtect(
                 data.as_ptr() as LPVOID,
-                data.len() - 1,
+                data.len(),
                 PAGE_READWRITE,
                 &mut old,
             )
@@ -423,7 +423,7 @@ fn dryoc_mprotect_noaccess(data: &[u8]) -> Result<(), std::io::Error> {
     #[cfg(unix)]
     {
         use libc::{PROT_NONE, c_void, mprotect as c_mprotect};
-        let ret = unsafe { c_mprotect(data.as_ptr() as *mut c_void, data.len() - 1, PROT_NONE) };
+        let ret = unsafe { c_mprotect(data.as_ptr() as *mut c_void, data.len(), PROT_NONE) };
         match ret {
             0 => Ok(()),
             _ => Err(std::io::Error::last_os_error()),
@@ -440,7 +440,7 @@ fn dryoc_mprotect_noaccess(data: &[u8]) -> Result<(), std::io::Error> {
         let res = unsafe {
             VirtualProtect(
                 data.as_ptr() as LPVOID,
-                data.len() - 1,
+                data.len(),
                 PAGE_NOACCESS,
                 &mut old,
             )
